@@ -225,7 +225,7 @@ class SMP_Command:
             instance = SMP_Command()
             instance.name = code.name
             instance.code = code
-            instance.payload = pdu
+            instance.payload = pdu[1:]
             return instance
         instance = subclass(**HCI_Object.dict_from_bytes(pdu, 1, subclass.fields))
         instance.payload = pdu[1:]
